@@ -87,6 +87,65 @@ Theorem C12_algorithm_choice_is_by_size_and_method : forall n,
 Proof. exact algorithm_choice_is_by_size_and_method. Qed.
 Print Assumptions C12_algorithm_choice_is_by_size_and_method.
 
+(** computeAlphas: the per-worker body and the serial body (worker count 1) write the
+    same [alphas] and return the same uvAlphaSum/total, for EVERY exact partition of the
+    macroblock rows, every interleaving of the workers' writes and every completion
+    order of their atomic adds; [luma], [uv] (the per-macroblock kernels) are arbitrary. *)
+From Webp Require Conc.ConcAnalysis Conc.ConcUVScratch.
+From WebpGen Require Analysis.
+Module An := Conc.ConcAnalysis.
+Theorem C12_analysis_worker_eq_serial :
+  forall (luma uv : Z -> Z -> Z) (mbW mbH : Z), 1 <= mbW -> 1 <= mbH ->
+  forall rs alphas0 inter order,
+  exact_partition rs 0 mbH ->
+  length alphas0 = Z.to_nat (mbH * mbW) ->
+  Shuffle (map (An.mbs_of_rows luma uv mbW) rs) inter ->
+  Permutation order rs ->
+  An.parallel luma uv mbW mbH alphas0 inter order = An.serial luma uv mbW mbH alphas0 /\
+  fst (An.serial luma uv mbW mbH alphas0) = map (An.alpha_at luma uv mbW) (zrange (mbH * mbW)).
+Proof. exact An.analysis_worker_eq_serial. Qed.
+Print Assumptions C12_analysis_worker_eq_serial.
+
+(** ... in particular for the code's own partition and every worker count n >= 1. *)
+Theorem C12_analysis_worker_eq_serial_all_n :
+  forall (luma uv : Z -> Z -> Z) (mbW mbH : Z), 1 <= mbW -> 1 <= mbH ->
+  forall n alphas0 inter order, 1 <= n ->
+  length alphas0 = Z.to_nat (mbH * mbW) ->
+  Shuffle (map (An.mbs_of_rows luma uv mbW) (ranges_compute_alphas n mbW mbH)) inter ->
+  Permutation order (ranges_compute_alphas n mbW mbH) ->
+  An.parallel luma uv mbW mbH alphas0 inter order = An.serial luma uv mbW mbH alphas0.
+Proof. exact An.analysis_worker_eq_serial_all_n. Qed.
+Print Assumptions C12_analysis_worker_eq_serial_all_n.
+
+(** Source tie for the two loop bodies (regenerated): the worker loop body and the serial
+    loop body are the same text, it is the text the model transcribes, and the serial and
+    worker wrappers return the same kernels on the same (enc, mbX, mbY), the worker
+    passing only its own scratch. *)
+Theorem C12_analysis_bodies_match :
+  WebpGen.Analysis.worker_body = WebpGen.Analysis.serial_body /\
+  WebpGen.Analysis.serial_body = An.modelled_body.
+Proof. split; reflexivity. Qed.
+Print Assumptions C12_analysis_bodies_match.
+
+Theorem C12_analysis_wrappers_same_kernel :
+  WebpGen.Analysis.wrappers =
+  [("computeMBAlphaDCT", "computeMBAlphaDCTWith", "enc, mbX, mbY", "src,pred,enc");
+   ("computeMBAlphaDCTWorker", "computeMBAlphaDCTWith", "enc, mbX, mbY", "w,w,w");
+   ("computeMBUVAlphaDCT", "computeMBUVAlphaDCTWith", "enc, mbX, mbY", "enc,enc,enc,enc,enc");
+   ("computeMBUVAlphaDCTWorker", "computeMBUVAlphaDCTWith", "enc, mbX, mbY", "w,w,w,w,w")]%string.
+Proof. reflexivity. Qed.
+Print Assumptions C12_analysis_wrappers_same_kernel.
+
+(** importImage UV workers: whatever a pooled importUVWorker (possibly from a wider
+    image) held, every U / V sample of a row pair is computed from scratch cells written
+    in the same call (hand model of the index sets, ConcUVScratch.v). *)
+Theorem C12_uv_worker_scratch_overwritten :
+  forall (w mbW L : nat) (hasAlpha : bool) (pooledRow0 pooledRow1 pooledPlanar pooledTmp : Conc.ConcUVScratch.arr) (i : nat),
+  (1 <= w)%nat -> (w <= 16 * mbW)%nat -> (16 * mbW <= L)%nat -> (i < (16 * mbW + 1) / 2)%nat ->
+  Conc.ConcUVScratch.uv_output_fresh w (16 * mbW) L hasAlpha pooledRow0 pooledRow1 pooledPlanar pooledTmp i = true.
+Proof. exact Conc.ConcUVScratch.uv_worker_scratch_overwritten. Qed.
+Print Assumptions C12_uv_worker_scratch_overwritten.
+
 (** Tie to the source (regenerated on every run): every read of the CPU count and
     every [go] statement of the library is one of the modelled sites, and every such
     read is followed by its verification hook. *)
